@@ -340,7 +340,7 @@ Definition wf_ped : bool :=
       (iota 0 (i_nind I))) ts.
 Definition wf_geno : bool :=
   (size (i_geno I) == i_ncols I) && all (fun g => size g == i_nind I) (i_geno I) &&
-  (size (i_recomb I) == i_ncols I).
+  (i_ncols I <= size (i_recomb I)).      (* recombcost[c] is read for every column c *)
 Definition wf : bool := wf_reads && wf_ped && wf_geno.
 
 (* 32-bit guard: every intermediate value of the solver is bounded by
